@@ -405,3 +405,38 @@ package literals
 //@   ensures @decoder-key-starts-from-the-initial-key: r0.List[2].(*ast.AssignStmt).Lhs[0].(*ast.Ident).Name == "decryptKey" && den[r0.List[2].(*ast.AssignStmt).Rhs[0].(*ast.CallExpr).Args[0]] == decryptKeyInitial
 //@   ensures @state-machine-stops-at-the-exit-index-and-folds-index-times-counter-into-the-key: dyntypeis(r0.List[3], *ast.ForStmt) && r0.List[3].(*ast.ForStmt).Cond.(*ast.BinaryExpr).Op == token.NEQ && r0.List[3].(*ast.ForStmt).Cond.(*ast.BinaryExpr).X.(*ast.Ident).Name == "i" && r0.List[3].(*ast.ForStmt).Cond.(*ast.BinaryExpr).Y.(*ast.BasicLit).Value == strconv.Itoa(indexes[len(indexes)-1]) && r0.List[3].(*ast.ForStmt).Body.List[0].(*ast.AssignStmt).Tok == token.XOR_ASSIGN && r0.List[3].(*ast.ForStmt).Body.List[0].(*ast.AssignStmt).Lhs[0].(*ast.Ident).Name == "decryptKey" && r0.List[3].(*ast.ForStmt).Body.List[0].(*ast.AssignStmt).Rhs[0].(*ast.BinaryExpr).Op == token.MUL && r0.List[3].(*ast.ForStmt).Body.List[0].(*ast.AssignStmt).Rhs[0].(*ast.BinaryExpr).X.(*ast.Ident).Name == "i" && r0.List[3].(*ast.ForStmt).Body.List[0].(*ast.AssignStmt).Rhs[0].(*ast.BinaryExpr).Y.(*ast.Ident).Name == "counter"
 //@ end
+
+// ---- C05: the shuffle obfuscator ----
+// fullData holds, for every i, the byte data[i] <op_i> key[i] at i and key[i] at len(data)+i; it is
+// stored shuffled (shuffledFullData[shuffledIdxs[j]] = fullData[j]); the emitted code rebuilds data[i] as
+//   fullData[(shuffledIdxs[i]^k) ^ int(idxKey[n])] <inverse op_i> fullData[(shuffledIdxs[len+i]^k) ^ int(idxKey[n])]
+// with k = int(idxKey[n]), i.e. it reads the two shuffled slots back. Each of the three loops is proved to
+// set up its own element; the literal for fullData is the shuffled bytes, the literal for idxKey the index key.
+
+//@ ghost shufLit map[ref]int
+
+//@ hookset shuffleobf
+//@ hook after mvdan.cc/garble/internal/asthelper.IntLit(v) (r)
+//@   shufLit[r] = v
+//@ end
+
+//@ func (shuffle).obfuscate
+//@   property C05
+//@   intmode bv
+//@   spec ops.smt2
+//@   hooks shuffleobf emitbytes
+//@   requires len(data) >= 1 && len(extKeys) > 0
+//@   skip safety call-requires
+//@   ensures @shuffled-bytes-and-index-key-are-what-the-decoder-is-given: r0 != nil && len(r0.List) == 4 && r0.List[0].(*ast.AssignStmt).Lhs[0].(*ast.Ident).Name == "fullData" && r0.List[1].(*ast.AssignStmt).Lhs[0].(*ast.Ident).Name == "idxKey" && len(litOf[r0.List[0].(*ast.AssignStmt).Rhs[0]]) == len(shuffledFullData) && len(litOf[r0.List[1].(*ast.AssignStmt).Rhs[0]]) == len(idxKey)
+//@   ensures @decoded-bytes-are-appended-in-order: dyntypeis(r0.List[3], *ast.AssignStmt) && r0.List[3].(*ast.AssignStmt).Lhs[0].(*ast.Ident).Name == "data" && dyntypeis(r0.List[3].(*ast.AssignStmt).Rhs[0], *ast.CallExpr) && r0.List[3].(*ast.AssignStmt).Rhs[0].(*ast.CallExpr).Fun.(*ast.Ident).Name == "append" && ref(r0.List[3].(*ast.AssignStmt).Rhs[0].(*ast.CallExpr).Args) == ref(args) && len(r0.List[3].(*ast.AssignStmt).Rhs[0].(*ast.CallExpr).Args) == len(data) + 1
+//@   loop 1
+//@     invariant @slot-i-holds-the-encoded-byte-and-slot-len-plus-i-its-key: _i >= 1 ==> fullData[_i-1] == spec.Eval(operators[_i-1], data[_i-1], key[_i-1]) && fullData[_i-1+len(data)] == key[_i-1]
+//@     invariant len(fullData) == len(data) + len(key) && len(key) == len(data) && len(operators) == len(fullData)
+//@   loop 2
+//@     invariant @slot-j-is-stored-at-its-shuffled-index: _i >= 1 ==> shuffledFullData[shuffledIdxs[_i-1]] == fullData[_i-1]
+//@     invariant len(shuffledFullData) == len(fullData) && len(shuffledIdxs) == len(fullData)
+//@   loop 3
+//@     invariant len(args) == _i + 1
+//@     invariant @argument-i-reads-both-shuffled-slots-back-and-applies-the-inverse-operator: _i >= 1 ==> dyntypeis(args[_i], *ast.BinaryExpr) && args[_i].(*ast.BinaryExpr).Op == spec.Rev(operators[_i-1]) && dyntypeis(args[_i].(*ast.BinaryExpr).X, *ast.IndexExpr) && args[_i].(*ast.BinaryExpr).X.(*ast.IndexExpr).X.(*ast.Ident).Name == "fullData" && args[_i].(*ast.BinaryExpr).Y.(*ast.IndexExpr).X.(*ast.Ident).Name == "fullData" && args[_i].(*ast.BinaryExpr).X.(*ast.IndexExpr).Index.(*ast.BinaryExpr).Op == token.XOR && args[_i].(*ast.BinaryExpr).Y.(*ast.IndexExpr).Index.(*ast.BinaryExpr).Op == token.XOR
+//@     invariant @index-literals-xor-the-index-key-give-the-shuffled-slots: _i >= 1 ==> 0 <= shufLit[args[_i].(*ast.BinaryExpr).X.(*ast.IndexExpr).Index.(*ast.BinaryExpr).Y.(*ast.CallExpr).Args[0].(*ast.IndexExpr).Index] && shufLit[args[_i].(*ast.BinaryExpr).X.(*ast.IndexExpr).Index.(*ast.BinaryExpr).Y.(*ast.CallExpr).Args[0].(*ast.IndexExpr).Index] < len(idxKey) && shufLit[args[_i].(*ast.BinaryExpr).X.(*ast.IndexExpr).Index.(*ast.BinaryExpr).X] ^ int(idxKey[shufLit[args[_i].(*ast.BinaryExpr).X.(*ast.IndexExpr).Index.(*ast.BinaryExpr).Y.(*ast.CallExpr).Args[0].(*ast.IndexExpr).Index]]) == shuffledIdxs[_i-1] && shufLit[args[_i].(*ast.BinaryExpr).Y.(*ast.IndexExpr).Index.(*ast.BinaryExpr).X] ^ int(idxKey[shufLit[args[_i].(*ast.BinaryExpr).Y.(*ast.IndexExpr).Index.(*ast.BinaryExpr).Y.(*ast.CallExpr).Args[0].(*ast.IndexExpr).Index]]) == shuffledIdxs[len(data)+_i-1]
+//@ end
